@@ -479,15 +479,43 @@ def run(chk):
     for (name, mech, what), (m, s0) in sorted(found.items()):
         chk.count((name, "targeted", mech, what))
         if what == "same-value":
-            if name == "scram":
-                continue
             chk.violation(f"lenient-decoding:{name}:{coarse2(mech, m, s0)}", f"{name}.verify accepts an undocumented re-spelling of the same value ({mech}): {m!r}", {"hasher": name, "mechanism": mech, "mutant": m, "original": s0})
         elif what == "OTHER-VALUE":
-            if name in ("scram",) or (name in HEXNORM and False):
-                continue
+            if name in ("scram",) and "last-digit" in mech:
+                continue            # (scram lists one digest per algorithm; the last digit of a LIST ITEM's digest is judged through full=True above)
             chk.violation(f"{name}:verify:{mech}:True", f"{name}.verify answered True for an altered string ({mech}) that is not even a re-spelling of the same value: {m!r}", {"hasher": name, "mechanism": mech, "mutant": m, "original": s0})
         else:
             chk.violation(f"{name}:verify:{mech}:{what}", f"{name}.verify on a {mech} probe raised an internal error ({what}): {m!r}", {"hasher": name, "mechanism": mech, "mutant": m})
+    # libpass's own hashers: the same deterministic probes (every one keeps the cost of the original string)
+    try:
+        from ..hashverify import libpass_hashers
+        lp = libpass_hashers()
+    except Exception as ex:
+        lp = []
+        chk.uncovered.append(f"libpass hashers: {type(ex).__name__}: {ex}"[:120])
+    lp_found = {}
+    for lname, LH, _k in lp:
+        s0 = LH.hash(PW)
+        for mech, m in targeted(s0):
+            if m == s0:
+                continue
+            for form in (m, m.encode("latin-1") if all(ord(ch) < 256 for ch in m) else None):
+                if form is None:
+                    continue
+                for cname, fn in (("verify", lambda: LH.verify(form, PW)), ("identify", lambda: LH.identify(form)), ("needs_update", lambda: LH.needs_update(form))):
+                    out = call1(fn)
+                    total += 1
+                    chk.action("libpass-targeted-" + cname)
+                    chk.count((lname, "targeted", cname, coarse2(mech, m, s0), out))
+                    if cname == "verify" and out == "True":
+                        lp_found.setdefault((lname, "lenient", coarse2(mech, m, s0)), (mech, m, s0))
+                    elif out.startswith("Internal") or out == "NoAnswer" or (cname == "identify" and out not in ("True", "False")):
+                        lp_found.setdefault((lname, cname, out), (mech, m, s0))
+    for (lname, what, cls), (mech, m, s0) in sorted(lp_found.items()):
+        if what == "lenient":
+            chk.violation(f"lenient-decoding:{lname}:{cls}", f"{lname}.verify accepts an altered spelling of a stored hash ({mech}): {m!r}", {"hasher": lname, "mechanism": mech, "mutant": m, "original": s0})
+        else:
+            chk.violation(f"{lname}:{what}:{mech}:{cls}", f"{lname}.{what} on a {mech} probe: {cls}: {m!r}", {"hasher": lname, "mechanism": mech, "mutant": m})
     lenient_classes = {}
     for (name, mech, what), (m, s0) in found.items():
         if what == "same-value":
